@@ -7,8 +7,10 @@ from ufo import build, rat
 ID = "C05"
 PROOF_FILES = ["C05Order", "C05Quant", "C05Groups", "C05Ufo", "C05Merge", "C05Split", "C05Part", "C05Reg", "C05Together", "C05",
                "C05ApplyLookup", "C05ApplyMap", "C05ApplyProg", "C05ApplyBuckets", "C05ApplyParts", "C05ApplyCells", "C05ApplyRules",
-               "C05ApplyDet", "C05Apply", "C05ApplyEx"]
-THEOREM = ("Ufo2ft.C05.C05_end_to_end (applyKern (program ...) tag g1 g2 = quantize (ufoKern ...): the GPOS application semantics on the emitted "
+               "C05ApplyDet", "C05ApplyNames", "C05Apply", "C05ApplyEx"]
+THEOREM = ("Ufo2ft.C05.C05_end_to_end_lang (applyKernLang d (program ...) tag lang g1 g2 = quantize (ufoKern ...) for every language declared for "
+           "the tag) / namesOK_of_wf (distinct buckets get distinct lookup names: proved, no longer a hypothesis) / "
+           "Ufo2ft.C05.C05_end_to_end (applyKern (program ...) tag g1 g2 = quantize (ufoKern ...): the GPOS application semantics on the emitted "
            "program gives the rounded UFO value, as placement too in right-to-left scripts), C05_marks_never_in_base_lookup; stages: "
            "Ufo2ft.C05.C05_precedence / C05_ufo_value / C05_ufo_some / C05_ufo_none (first match of the sorted rules = rounded UFO value), "
            "sortPairs_sorted, firstMatch_minimal, quantize_near, mergeFix_apart / mergedSets_unique / mergeScripts_perm, "
@@ -42,10 +44,12 @@ ASSUMED = ["Unicode script / script-extension / bidi data and the GSUB closure a
            "tied on every generated font (the Lean application semantics on the model's program == the interpreter on the compiled font)",
            "C05_end_to_end: lookup flags (IgnoreMarks / mark filtering set) only decide which glyphs BETWEEN two glyphs are skipped; for an "
            "adjacent pair they do not change which rule applies (C05_marks_never_in_base_lookup: no mark glyph is ever in a rule of an "
-           "IgnoreMarks lookup); default language system only (every declared language references the same lookups)",
+           "IgnoreMarks lookup); C05_end_to_end_lang covers every language declared for the tag (langs input = the writer's "
+           "feaLanguagesByScript), over a Lean LangSys-selection semantics (own LangSys, else the script's default, else DFLT; LangSys "
+           "records created by other features without kerning are inputs `Declared`) tied to the compiled font per (tag, language)",
            "C05_end_to_end hypotheses (decidable, evaluated by the driver): wfKern, ctxOK (Common is the one 'Auto' script; all scripts of "
            "a glyph have one direction), both glyphs of the script or neutral, the script's feature is written (featOn), distinct lookup "
-           "names (namesOK), and cellClean = the pair is outside the three known bidi-cell shapes (stated on the determining cell only)",
+           "names follow from script names of the ISO-15924 shape Xxxx (scriptsOK; namesOK_of_wf over the character-list lookupName), and cellClean = the pair is outside the three known bidi-cell shapes (stated on the determining cell only)",
            "kernFeatureWriter2 (the second shipped writer) is not modelled: it is compared end-to-end with writer 1 on single-direction fonts "
            "(equality of the applied adjustments, evaluated by the Lean driver)",
            "wfKern (valid UFO 3 groups, distinct group names and kerning keys, no glyph named like a kerning group) for the UFO-value theorem; "
@@ -424,32 +428,45 @@ def run(case):
 
 
 def _apply_request(tt, names, inp, program, tags, rich):
-    """op "apply": the adjustment table of the COMPILED font (independent interpreter gpos.pair_adjust) for every script tag - the
-    tags of the compiled ScriptList, the tags the writer registered, DFLT and one tag that is registered nowhere (a shaper falls
-    back to DFLT) - and every ordered pair of the font's glyphs, against `applyKern` evaluated in Lean on the MODEL's program."""
+    """op "apply": the adjustment table of the COMPILED font (independent interpreter gpos.pair_adjust) for every (script tag,
+    language) - the tags of the compiled ScriptList, the tags the writer registered, DFLT and one tag that is registered nowhere (a
+    shaper falls back to DFLT); per tag the default language system, every LangSys record of the compiled font, and one language
+    that is declared nowhere ("ZZZ ": a shaper falls back to the script's default language system) - and every ordered pair of the
+    font's glyphs, against `applyKernLang` evaluated in Lean on the MODEL's program.  Keys: "tag" or "tag/lang"."""
     import gpos
     sf = gpos.script_features(tt) if "GPOS" in tt else {}
     order = set(tt.getGlyphOrder())
     gl = [g for g in names if g in order]
     atags = sorted(set(sf) | {r[0] for r in program["kern"]} | {r[0] for r in program["dist"]} | {"DFLT", "zzzz"})
-    table = []
+    table, keys = [], []
     for tag in atags:
-        lk = gpos.lookups_for(tt, tag if tag in sf else "DFLT", "dflt", {"kern", "dist"}) if sf else None
-        ent = []
-        if lk:
-            for g1 in gl:
-                for g2 in gl:
-                    a = gpos.pair_adjust(tt, lk, g1, g2)
-                    if a[0] or a[1] or a[2] or a[3]:
-                        ent.append([g1, g2, rat(a[0]), rat(a[1])] if not (a[2] or a[3]) else [g1, g2, "999999", "999999"])
-        table.append([tag, ent])
+        langs = ["dflt"] + sorted(l for l in sf.get(tag, {}) if l != "dflt") + ["ZZZ "]
+        for lang in langs:
+            lk = gpos.lookups_for(tt, tag if tag in sf else "DFLT", lang, {"kern", "dist"}) if sf else None
+            ent = []
+            if lk:
+                for g1 in gl:
+                    for g2 in gl:
+                        a = gpos.pair_adjust(tt, lk, g1, g2)
+                        if a[0] or a[1] or a[2] or a[3]:
+                            ent.append([g1, g2, rat(a[0]), rat(a[1])] if not (a[2] or a[3]) else [g1, g2, "999999", "999999"])
+            key = tag if lang == "dflt" else "%s/%s" % (tag, lang)
+            keys.append(key)
+            table.append([key, ent])
     ainp = dict(inp)
-    ainp["applyTags"] = atags
-    # script tags that are in the ScriptList only because another (hand-written) positioning feature is registered there
-    ainp["otherTags"] = sorted(t for t in sf if not any(f in ("kern", "dist") for feats in sf[t].values() for f, _ in feats))
+    ainp["applyTags"] = keys
+
+    def nokern(feats):
+        return not any(f in ("kern", "dist") for f, _ in feats)
+    # script tags / LangSys records that are in the ScriptList only because another (hand-written) positioning feature is
+    # registered there
+    ainp["otherTags"] = sorted(t for t in sf if all(nokern(feats) for feats in sf[t].values()))
+    ainp["otherLangSys"] = sorted([t, l] for t in sf for l, feats in sf[t].items() if nokern(feats))
     ainp["applyGlyphs"] = gl
+    nlang = sum(1 for k in keys if "/" in k and not k.endswith("/ZZZ "))
     return {"op": "apply", "in": ainp, "obs": {"table": table, "err": None},
-            "tags": ["apply"] + [t for t in tags if t in ("bidir", "alts")] + (["apply:unregistered-tag-falls-back"] if sf else []),
+            "tags": ["apply"] + [t for t in tags if t in ("bidir", "alts")] + (["apply:unregistered-tag-falls-back"] if sf else []) +
+                    (["apply:own-language-systems"] if nlang else []),
             "nontrivial": rich and any(e for _, e in table)}
 
 
@@ -623,10 +640,13 @@ def _classify_agree2(r, bad):
 
 
 LEVEL_TEXT = ("Proved (Lean, all inputs): END-TO-END C05_end_to_end - for well-formed kerning, a Unicode context as fontTools supplies it, two "
-              "glyphs of one script (or neutral), a tag of that script whose feature is written, distinct lookup names, and the pair outside "
+              "glyphs of one script (or neutral), a tag of that script whose feature is written, ISO-15924-shaped script names, and the pair outside "
               "the three known bidi-cell shapes (cellClean, on the determining cell only): applyKern(program(inputs), tag, g1, g2) = "
               "(quantize(ufoKern g1 g2), the same as x-placement iff the script is right-to-left), where applyKern is a GPOS application "
               "semantics (feaLib PairPos layout, first matching subtable, lookups add, DFLT fallback) tied to the compiled font on every run; "
+              "C05_end_to_end_lang: the same equation for every language the feature file declares for the tag (applyKernLang: LangSys of "
+              "(tag, language), else the script's default language system, else DFLT); lookupName (over character lists, same strings) is "
+              "injective on bucket keys of ISO-shaped script names, so distinct buckets get distinct lookup names (namesOK_of_wf); "
               "the composition goes through: first match of the sorted pairs = UFO value; at most one part / one direction cell of a pair "
               "contains a glyph pair; all cells containing it are in one bucket = one lookup; the rules of a lookup are the bidi-filtered "
               "sorted cells of its bucket; class rules of a lookup fit one format-2 subtable; the lookup is emitted once and referenced "
